@@ -97,3 +97,8 @@ def run(ctx):
         raise vlib.ToolError("binding self-test failed: Trace_Transcode accepted a pad byte inside the pixel data")
     ctx.extra_cov.setdefault("binding_selftests", []).append("Trace_Transcode flags a pad byte inserted into the final pixel data")
     ctx.exhaustive = False
+
+    # specification growth (thorough tier only): colour / palette images through transcode, Extended Offset Table
+    if not q:
+        from checks import _pipeline
+        _pipeline.run_transcode(ctx)
